@@ -71,6 +71,8 @@ FScalarMul(f, c) == [scope |-> f.scope, val |-> [a \in DOMAIN f.val |-> RMul(f.v
 FScalarAdd(f, c) == [scope |-> f.scope, val |-> [a \in DOMAIN f.val |-> RAdd(f.val[a], RInt(c))]]
 FSetValue(f, a, c) == [scope |-> f.scope, val |-> [f.val EXCEPT ![a] = RInt(c)]]
 FEqual(f, g) == f.scope = g.scope /\ \A a \in DOMAIN f.val : f.val[a] = g.val[a]
+\* inner product of two factors over the same scope (pgmpy.factors.FactorDict.dot, one clique): sum over named assignments
+FDot(dom, f, g) == FTotal(FProduct(dom, f, g))
 HasNaN(f) == \E a \in DOMAIN f.val : IsNaN(f.val[a])
 HasInf(f) == \E a \in DOMAIN f.val : IsInf(f.val[a])
 
